@@ -190,6 +190,12 @@ def progress (cfg : Cfg α) (s : St α) (e : α) : Res α :=
         let r := r2lUpdate cfg s1
         ⟨r.st, ev :: r.evs, r.halt⟩
 
+/-- Sequential composition of two pieces of the run: an exception stops everything. -/
+def Res.andThen (r : Res α) (k : St α → Res α) : Res α :=
+  match r.halt with
+  | some h => ⟨r.st, r.evs, some h⟩
+  | none => ⟨(k r.st).st, r.evs ++ (k r.st).evs, (k r.st).halt⟩
+
 /-- The loop of `MPSBackend._run` (`while not impl.is_finished(): impl.progress()`), the energies
 of the successive local minimisations coming from a tape. Stops at the end of the tape, when the
 run is finished, or at the first exception. -/
@@ -197,13 +203,7 @@ def runTape (cfg : Cfg α) : List α → St α → Res α
   | [], s => ⟨s, [], none⟩
   | e :: es, s =>
     if finished cfg s then ⟨s, [], none⟩
-    else
-      let r := progress cfg s e
-      match r.halt with
-      | some h => ⟨r.st, r.evs, some h⟩
-      | none =>
-        let r' := runTape cfg es r.st
-        ⟨r'.st, r.evs ++ r'.evs, r'.halt⟩
+    else (progress cfg s e).andThen (fun s' => runTape cfg es s')
 
 /-- The `(idx, orth_center_right)` pairs of one sweep, in order, as the code visits them:
 `0,…,n-3` left-to-right, then `n-2,…,1` right-to-left (the pair `(0,1)` is *not* revisited on
